@@ -253,6 +253,12 @@ class PropertyCheck:
         confirmed = None
         hooks_mod = self.owner.get(key)
         model_inputs = None
+        is_lemma = bool(getattr(con, "lemma_src", None)) and not hooks_mod
+        if is_lemma:
+            import importlib as _il
+            hooks_mod = [m for m in sys.modules if m.startswith("contracts.") and
+                         any(v is con for v in getattr(sys.modules[m], "REGISTRY", {}).values())]
+            hooks_mod = self.lemma_module_of(con)
         if ob.kind in ("post", "exc", "frame") and hooks_mod:
             try:
                 m = verify.model_for(ob)
@@ -265,7 +271,7 @@ class PropertyCheck:
         if model_inputs is not None:
             try:
                 out = run_driver({"mode": "replay", "contract_module": hooks_mod, "key": key,
-                                  "inputs": model_inputs, "timeout_s": 5.0})
+                                  "inputs": model_inputs, "timeout_s": 5.0, "lemma": is_lemma})
                 if out["violations"]:
                     confirmed = out["violations"][0]
                 elif out["problems"]:
@@ -274,7 +280,7 @@ class PropertyCheck:
                     self.say(f"SPURIOUS obligation={label} counter-model does not reproduce on the real code")
             except Exception as e:
                 self.say(f"NOTE replay driver failed for {label}: {e!r}")
-        if confirmed is None and hooks_mod:
+        if confirmed is None and hooks_mod and not is_lemma:
             # finite-instantiation / small-scope search on the real function
             try:
                 out = self.bounded_job(hooks_mod, key, record=False)
@@ -293,6 +299,18 @@ class PropertyCheck:
         else:
             self.undecided.append({"function": key, "obligation": label, "why": "refuted VC not reproduced and not in baseline"})
             self.say(f"UNDECIDED obligation={label} reason=refuted-not-reproduced")
+
+    def lemma_module_of(self, con):
+        for name, m in sys.modules.items():
+            if name.startswith("contracts.") and hasattr(m, "__file__"):
+                for v in vars(m).values():
+                    pass
+        for name, m in list(sys.modules.items()):
+            if name.startswith("contracts."):
+                src = open(m.__file__).read()
+                if f'"{con.key}"' in src:
+                    return name
+        return None
 
     def param_structure(self, con, rep):
         """Re-create the symbolic parameter structure (deterministic names: same symbols as in the VCs)."""
@@ -332,7 +350,8 @@ class PropertyCheck:
         safe = "".join(ch if ch.isalnum() else "_" for ch in label)[-80:]
         path = os.path.join(REPLAY_DIR, f"{self.pid}-{safe}.json")
         doc = {"property": self.pid, "function": key, "obligation": label, "note": note,
-               "contract_module": self.owner.get(key), "inputs": viol["inputs"] if viol else None,
+               "contract_module": self.owner.get(key) or self.lemma_module_of(REGISTRY[key]) if key in REGISTRY else None,
+               "lemma": bool(getattr(REGISTRY.get(key), "lemma_src", None)) and not self.owner.get(key), "inputs": viol["inputs"] if viol else None,
                "observed": viol.get("outcome") if viol else None, "failed": viol.get("failed") if viol else None,
                "solver": {"status": ob.status, "backend": ob.backend, "info": ob.info,
                           "vc_smt2_head": ob.smt2()[:4000]} if ob is not None else None}
@@ -390,6 +409,14 @@ class PropertyCheck:
                 d["paths"] = rep.paths
                 d["status"] = rep.status
                 funcs.append(d)
+                con = REGISTRY.get(rep.key)
+                for dep in getattr(con, "lemma_deps", []) or []:
+                    try:
+                        dd = SourceIndex().func(dep).describe()
+                        dd["via_lemma"] = rep.key
+                        funcs.append(dd)
+                    except Exception:
+                        pass
             for l, s in getattr(rep, "label_status", {}).items():
                 labels[l] = s
         n_obl = len(labels)
